@@ -2050,7 +2050,9 @@ struct Exec {
 
     // ---------------------------------------------------------------------
 
-    void run() {
+    std::vector<std::unique_ptr<char[]>> jitter;
+
+    void begin() {
         // resolve policies
         std::set<std::string> seen;
         for (auto& name : plan.pols) {
@@ -2092,11 +2094,15 @@ struct Exec {
         }
         set_world_ids(w);
         // heap jitter: vary allocation addresses on purpose
-        std::vector<std::unique_ptr<char[]>> jitter;
         for (int i = 0; i < plan.heap_jitter; ++i)
             jitter.emplace_back(new char[16 + (i * 37) % 200]);
+    }
 
-        for (std::size_t i = 0; i < plan.events.size() && !stop; ++i) {
+    // execute one event; false when the run must stop
+    bool step(std::size_t i) {
+        if (stop || i >= plan.events.size())
+            return false;
+        {
             cur_event = (int)i;
             auto& e = plan.events[i];
             ++res.st.events;
@@ -2139,27 +2145,71 @@ struct Exec {
                 invalid("bad op");
             }
         }
+        return !stop;
+    }
+
+    void finish(bool leave_loaded = false) {
         for (auto& s : ps)
             res.final_live[s.name] = s.live;
         // leave the policies in their load-time state
-        for (auto& s : ps)
-            s.ops->reset();
+        if (!leave_loaded)
+            for (auto& s : ps)
+                s.ops->reset();
         res.evhash = evh.h;
         res.signature = sig.h;
         res.nontrivial = res.st.mi_classes > 0 || res.st.multi_applicable > 0 ||
             !res.st.faults.empty();
     }
 
+    void run() {
+        begin();
+        for (std::size_t i = 0; i < plan.events.size() && !stop; ++i)
+            step(i);
+        finish();
+    }
 };
 
 } // namespace
-
 
 RunResult execute(const Plan& plan, const ExecOpts& opts) {
     Exec ex(plan, opts);
     ex.run();
     ex.res.final_world = ex.w;
     return std::move(ex.res);
+}
+
+// stepwise execution (sched-sim drives events from a task thread)
+struct Session::Impl {
+    Plan plan;
+    ExecOpts opts;
+    Exec ex;
+    Impl(const Plan& p, const ExecOpts& o) : plan(p), opts(o), ex(plan, opts) {
+    }
+};
+
+Session::Session(const Plan& plan, const ExecOpts& opts)
+    : impl(new Impl(plan, opts)) {
+    impl->ex.begin();
+}
+Session::~Session() {
+    delete impl;
+}
+bool Session::step(std::size_t i) {
+    return impl->ex.step(i);
+}
+bool Session::stopped() const {
+    return impl->ex.stop;
+}
+RunResult Session::finish() {
+    impl->ex.finish(false);
+    impl->ex.res.final_world = impl->ex.w;
+    return impl->ex.res;
+}
+PolicyOps* Session::ops(int pol) {
+    return impl->ex.ps[pol].ops;
+}
+const Registry& Session::updated(int pol) {
+    return impl->ex.ps[pol].updated;
 }
 
 // ---------------------------------------------------------------------------
